@@ -453,3 +453,131 @@ Print Assumptions C19_tsd_lost_only_around_failures.
 Print Assumptions C19_tsd_loss_is_reported.
 Print Assumptions C19_tsd_recovery.
 Print Assumptions C19_tsd_recovery_ops_partial.
+
+(* ------------------------------------------------------------------ with rotation, Timestamps naming (rCURRENT) *)
+(* proofs in Flw/FaultTsSpec.v (the specification simts) and Flw/FaultTs.v (refinement); the history: before each record
+   the clock advances (FaultTsdSpec.tops).  A rotation makes four fallible calls (two listings for the collision-free infix
+   of the time stamp kept in the naming state, the rename of rCURRENT, the open of the new rCURRENT).  When one of the first
+   three fails it is reported (ELogFile) and the record goes into the over-full rCURRENT.  When the rename has succeeded and
+   the open fails (state ZOld): reported (ELogFile); the writer keeps the OLD, renamed file open and the next records go
+   into it; there is no rCURRENT; the time stamp of the naming state is the second of the failed attempt (it names no file);
+   the next record that can create rCURRENT completes the rotation: nothing is renamed a second time, no name is used
+   twice, no file is overwritten, nothing is lost silently. *)
+Require Import FL.Flw.TsAsync FL.Flw.FaultTsSpec FL.Flw.FaultTs.
+
+(* (1) every fault oracle, every timed record list: directory (files of the keys, rCURRENT or none), error channel (exact
+   codes), rest of the oracle are what simts computes; every call returns normally *)
+Theorem C19_ts_faults :
+  forall c m t0 off fl recs,
+  tscfg c (CSize m) -> c_cap c = None -> tag_ok c -> ticks_ok recs ->
+  (0 <= t0 + ts_e c off)%Z -> (t0 + telapsed recs + ts_e c off < sec_max)%Z -> (N.of_nat (length recs) <= usize_max)%N ->
+  let r := run (fsys t0 off fl) (OStart c :: tops recs) in
+  let '(keys, conts, ocur, errs, rest) := simts (c_append c) m t0 fl recs in
+  FsFacts.fs_wf (wfs (s_w (fst r)))
+  /\ ts_view_opt c (ts_e c off) (wfs (s_w (fst r))) keys conts ocur
+  /\ keys_ok keys /\ (forall k, In k keys -> (t0 <= fst k <= t0 + telapsed recs)%Z)
+  /\ werrs (s_w (fst r)) = errs
+  /\ wfaults (s_w (fst r)) = rest
+  /\ (forall o, In o (snd r) -> exists rot, o = ObsRes 0 rot).
+Proof. exact faults_timestamps. Qed.
+
+(* the same with the abstract state, the time stamp of the naming state included *)
+Theorem C19_ts_faults_state :
+  forall c m t0 off fl recs,
+  tscfg c (CSize m) -> c_cap c = None -> tag_ok c -> ticks_ok recs ->
+  (0 <= t0 + ts_e c off)%Z -> (t0 + telapsed recs + ts_e c off < sec_max)%Z -> (N.of_nat (length recs) <= usize_max)%N ->
+  let r := run (fsys t0 off fl) (OStart c :: tops recs) in
+  let '(st, errs, rest) := simts_st (c_append c) m t0 (ZInit None) fl recs in
+  ts_view_opt c (ts_e c off) (wfs (s_w (fst r))) (z_keys st) (z_closed st) (z_cur st)
+  /\ ns_ts_of (fst r) = z_ts st
+  /\ z_ok t0 (t0 + telapsed recs) st
+  /\ werrs (s_w (fst r)) = errs /\ wfaults (s_w (fst r)) = rest
+  /\ (forall o, In o (snd r) -> exists rot, o = ObsRes 0 rot).
+Proof. exact faults_timestamps_st. Qed.
+
+(* (2) record by record *)
+Theorem C19_ts_lost_only_around_failures :
+  forall c m t0 off fl recs,
+  tscfg c (CSize m) -> c_cap c = None -> tag_ok c -> ticks_ok recs ->
+  (0 <= t0 + ts_e c off)%Z -> (t0 + telapsed recs + ts_e c off < sec_max)%Z -> (N.of_nat (length recs) <= usize_max)%N ->
+  let x := fst (run (fsys t0 off fl) (OStart c :: tops recs)) in
+  let t := tracez (c_append c) m t0 (ZInit None) fl recs in
+  exists keys conts ocur,
+    ts_view_opt c (ts_e c off) (wfs (s_w x)) keys conts ocur /\ keys_ok keys
+    /\ dir_stream conts ocur = concat (List.map t_kept t)
+    /\ List.map t_rec t = List.map snd recs
+    /\ werrs (s_w x) = concat (List.map t_errs t)
+    /\ fl = concat (List.map t_used t) ++ wfaults (s_w x)
+    /\ (forall e, In e t -> length (t_errs e) = ntrue (t_used e))
+    /\ (forall e, In e t -> (forall f, In f (t_used e) -> f = false) -> t_errs e = [] /\ t_kept e = t_rec e)
+    /\ (forall e, In e t -> t_kept e <> t_rec e -> In true (t_used e) /\ In EWrite (t_errs e)).
+Proof. exact ts_lost_only_around_failures. Qed.
+
+(* (3) every missing record is one reported EWrite; the only other code is ELogFile *)
+Theorem C19_ts_loss_is_reported :
+  forall c m t0 off fl recs,
+  tscfg c (CSize m) -> c_cap c = None -> tag_ok c -> ticks_ok recs ->
+  (0 <= t0 + ts_e c off)%Z -> (t0 + telapsed recs + ts_e c off < sec_max)%Z -> (N.of_nat (length recs) <= usize_max)%N ->
+  let x := fst (run (fsys t0 off fl) (OStart c :: tops recs)) in
+  exists keys conts ocur kept,
+    ts_view_opt c (ts_e c off) (wfs (s_w x)) keys conts ocur /\ keys_ok keys
+    /\ dir_stream conts ocur = concat kept /\ Subseq kept (List.map snd recs)
+    /\ length recs = length kept + nlost (werrs (s_w x))
+    /\ nlost (werrs (s_w x)) <= length (werrs (s_w x))
+    /\ (forall e, In e (werrs (s_w x)) -> e = EWrite \/ e = ELogFile).
+Proof. exact ts_loss_is_reported. Qed.
+
+(* (4) recovery: further records; a half-done rotation is completed by the first of them *)
+Theorem C19_ts_recovery :
+  forall c m t0 off fl recs1 recs2,
+  tscfg c (CSize m) -> c_cap c = None -> tag_ok c -> ticks_ok (recs1 ++ recs2) ->
+  (0 <= t0 + ts_e c off)%Z -> (t0 + telapsed (recs1 ++ recs2) + ts_e c off < sec_max)%Z ->
+  (N.of_nat (length (recs1 ++ recs2)) <= usize_max)%N ->
+  let x1 := fst (run (fsys t0 off fl) (OStart c :: tops recs1)) in
+  let r2 := run (fsys t0 off fl) (OStart c :: tops (recs1 ++ recs2)) in
+  let '(st1, _, _) := simts_st (c_append c) m t0 (ZInit None) fl recs1 in
+  let '(st2, _, _) := simts_st (c_append c) m t0 (ZInit None) fl (recs1 ++ recs2) in
+  all_false (wfaults (s_w x1)) ->
+  ts_view_opt c (ts_e c off) (wfs (s_w x1)) (z_keys st1) (z_closed st1) (z_cur st1)
+  /\ ts_view_opt c (ts_e c off) (wfs (s_w (fst r2))) (z_keys st2) (z_closed st2) (z_cur st2)
+  /\ werrs (s_w (fst r2)) = werrs (s_w x1)
+  /\ dir_stream (z_closed st2) (z_cur st2) = dir_stream (z_closed st1) (z_cur st1) ++ concat (List.map snd recs2)
+  /\ zaview st2 = s_run m (zaview st1) (tops recs2)
+  /\ zextends st1 st2
+  /\ keys_ok (z_keys st2)
+  /\ (recs2 <> [] -> exists keys closed ts d, st2 = ZCur keys closed ts d)
+  /\ (forall o, In o (snd r2) -> exists rot, o = ObsRes 0 rot).
+Proof. exact ts_recovery. Qed.
+
+(* (4) recovery: arbitrary basic operations once the oracle is used up and the writer is on rCURRENT *)
+Theorem C19_ts_recovery_ops :
+  forall c m t0 off fl recs ops,
+  tscfg c (CSize m) -> c_cap c = None -> tag_ok c -> ticks_ok recs ->
+  Forall basic_op ops -> Forall tick_ok ops ->
+  (0 <= t0 + ts_e c off)%Z -> (t0 + telapsed recs + elapsed ops + ts_e c off < sec_max)%Z ->
+  (N.of_nat (length recs + length ops) <= usize_max)%N ->
+  let x := fst (run (fsys t0 off fl) (OStart c :: tops recs)) in
+  let '(st, _, rest) := simts_st (c_append c) m t0 (ZInit None) fl recs in
+  rest = [] -> forall keys closed ts d, st = ZCur keys closed ts d ->
+    let kt := kts_run m (keys, ts) (Some (closed, d)) (t0 + telapsed recs) ops in
+    RelTK c (CSize m) (ts_e c off) t0 (length recs) x (Some (closed, d)) keys ts
+    /\ RelTK c (CSize m) (ts_e c off) t0 (length recs + length ops) (fst (run x ops)) (s_run m (Some (closed, d)) ops) (fst kt) (snd kt)
+    /\ (forall i o b, nth_error ops i = Some o -> (o = OWrite b \/ o = OPlain b) ->
+          nth_error (snd (run x ops)) i
+          = Some (ObsRes 0 (m <? N.of_nat (length (cur_of (s_run m (Some (closed, d)) (firstn i ops)))))%N)).
+Proof. exact ts_recovery_ops. Qed.
+
+(* the half-failed rotation: rename done, open failed twice - all three records in the renamed file, no rCURRENT, the naming
+   state carries the second of the last failed attempt; then recovery: nothing renamed twice, nothing lost *)
+Theorem C19_ts_half_failed_rotation :
+  zx_run false 3 zx_fl (firstn 3 trecs5) = ([(z00, 0%N, bs "abcdefgh")], Some 1%Z, [ELogFile; ELogFile], [], true)
+  /\ zx_run false 3 zx_fl trecs5
+     = ([(z00, 0%N, bs "abcdefgh"); (z01, 0%N, bs "ijkl"); (zC, 0%N, bs "mn")], Some 3%Z, [ELogFile; ELogFile], [], true).
+Proof. split; vm_compute; reflexivity. Qed.
+
+Print Assumptions C19_ts_faults.
+Print Assumptions C19_ts_faults_state.
+Print Assumptions C19_ts_lost_only_around_failures.
+Print Assumptions C19_ts_loss_is_reported.
+Print Assumptions C19_ts_recovery.
+Print Assumptions C19_ts_recovery_ops.
